@@ -82,10 +82,35 @@ func (fc *FnCtx) retryDo(ins ssa.Instruction, cc *ssa.CallCommon, setResult func
 	}
 	g.trusted["built-in model: retry.Do(ctx, f, opts) = zero or more failed attempts (arbitrary effects within what f can modify), then one final attempt of f whose nil/non-nil result is returned (Attempts >= 1)"] = true
 	id := fc.syntheticID("retry", ins)
+	// an invariant for the attempts may be given as `rangeloop N invariant ...` (N counts Range / ContainsBy / retry.Do
+	// calls of the function): it holds before the first attempt and after every failed one
+	// (retry.Do calls are counted on the function under verification, also when they sit in inlined callees)
+	root := fc
+	for root.parent != nil {
+		root = root.parent
+	}
+	root.rangeN++
+	rn := root.rangeN
+	var ls *LoopSpec
+	if root.c != nil {
+		ls = root.c.RangeLoops[rn]
+	}
+	if ls != nil {
+		env := root.envAt(fc.cur, root.debugNames)
+		for i, inv := range ls.Invariants {
+			fc.oblige("inv-entry", fmt.Sprintf("R%d.%d", rn, i+1), posOf(ins), env.boolExpr(inv.Expr), inv.Src, inv.Name)
+		}
+	}
 	saved := g.curLoops
 	g.curLoops = append(append([]string{}, saved...), id)
 	// earlier attempts
 	fc.havocSynthetic(id)
+	if ls != nil {
+		env := root.envAt(fc.cur, root.debugNames)
+		for _, inv := range ls.Invariants {
+			fc.assume(env.boolExpr(inv.Expr), "retry invariant "+inv.Src)
+		}
+	}
 	// final attempt (retry.Do calls f at least once when Attempts >= 1, the default and every configured value)
 	c := g.findContract(ci.fn)
 	var rs []Val
@@ -93,6 +118,16 @@ func (fc *FnCtx) retryDo(ins ssa.Instruction, cc *ssa.CallCommon, setResult func
 		rs = fc.applyContract(ins, c, ci.fn.String(), ci.fn.Signature, ci.bindingsAsArgs(), true, nil)
 	} else {
 		rs = fc.inline(ins, ci.fn, c, ci, nil)
+	}
+	if ls != nil && len(rs) == 1 {
+		// a failed attempt may be followed by another one: it re-establishes the invariant
+		savedReach := fc.curReach
+		fc.curReach = g.def(fc.prefix+"retry.failed", "Bool", fmt.Sprintf("(and %s (not (= (itag %s) 0)))", savedReach, rs[0].t))
+		env := root.envAt(fc.cur, root.debugNames)
+		for i, inv := range ls.Invariants {
+			fc.oblige("inv-step", fmt.Sprintf("R%d.%d", rn, i+1), posOf(ins), env.boolExpr(inv.Expr), inv.Src, inv.Name)
+		}
+		fc.curReach = savedReach
 	}
 	g.curLoops = saved
 	res := g.fresh(fc.prefix+"retry.err", "Iface")
